@@ -33,6 +33,17 @@ META = {
 }
 
 
+def incr(stmt):
+    """(name, +1|-1, value expr) for `x += v`, `x -= v`, `x = x + v`, `x = x - v`; else None"""
+    if isinstance(stmt, ast.AugAssign) and isinstance(stmt.target, ast.Name) and isinstance(stmt.op, (ast.Add, ast.Sub)):
+        return stmt.target.id, (1 if isinstance(stmt.op, ast.Add) else -1), stmt.value
+    if isinstance(stmt, ast.Assign) and len(stmt.targets) == 1 and isinstance(stmt.targets[0], ast.Name) \
+            and isinstance(stmt.value, ast.BinOp) and isinstance(stmt.value.op, (ast.Add, ast.Sub)) \
+            and A.is_name(stmt.value.left, stmt.targets[0].id):
+        return stmt.targets[0].id, (1 if isinstance(stmt.value.op, ast.Add) else -1), stmt.value.right
+    return None
+
+
 def run(ctx):
     rep = ctx.report
     cls = ctx.repo.cls('core.DynamicBucketDataset')
@@ -59,6 +70,26 @@ def run(ctx):
         rep.ob('P1', K.key(cls, '__iter__', 'one-creation-site'), False, loop, '%d appends to the open-bucket list' % len(apps))
         return
     B = apps[0].func.value.id
+    # names that hold the data of a bucket: assigned from `<x>.data` (or from sorted(<such a name>, ...))
+    DN = set()
+    for n in A.walk_local(fn):
+        if isinstance(n, ast.Assign) and len(n.targets) == 1 and isinstance(n.targets[0], ast.Name):
+            v = n.value
+            if isinstance(v, ast.Attribute) and v.attr == 'data':
+                DN.add(n.targets[0].id)
+    if not DN:
+        raise AnalysisError('undecidable shape: no variable holds the data of a bucket')
+
+    def is_data(e):
+        return isinstance(e, ast.Name) and e.id in DN
+
+    def len_of_data(e):
+        return isinstance(e, ast.Call) and A.dotted(e.func) == 'len' and e.args and is_data(e.args[0])
+    # the withheld-examples counter: the name decremented by len(data)
+    CN = {incr(s)[0] for s in A.walk_local(fn) if incr(s) and incr(s)[1] == -1 and len_of_data(incr(s)[2])}
+    if len(CN) != 1:
+        raise AnalysisError('undecidable shape: withheld-examples counter not identified (%s)' % sorted(CN))
+    CN = CN.pop()
     # ---------------- P1
     creates = [c for c in A.walk_stmts(loop.body) if isinstance(c, ast.Call) and A.is_self_attr(c.func, 'bucket_cls')]
     fits = [c for c in A.walk_stmts(loop.body) if isinstance(c, ast.Call) and isinstance(c.func, ast.Attribute)
@@ -171,8 +202,8 @@ def run(ctx):
         rep.ob('P2', K.key(cls, '__iter__', 'removal-paired-with-emission(%s)' % name), ok, p, why)
         # the emitted data belong to the popped bucket
         popped = p.args[0] if p.args else None
-        data_defs = [s for s in A.walk_stmts(block) if isinstance(s, ast.Assign) and A.is_name(s.targets[0], 'data')
-                     and 'sorted' not in A.src(s.value)]
+        data_defs = [s for s in A.walk_stmts(block) if isinstance(s, ast.Assign) and is_data(s.targets[0])
+                     and not (isinstance(s.value, ast.Call) and A.dotted(s.value.func) == 'sorted')]
         okd = False
         if data_defs:
             dv = data_defs[0].value
@@ -201,19 +232,17 @@ def run(ctx):
             if isinstance(s, ast.If) and A.is_self_attr(A.strip_not(s.test)[0], 'drop_incomplete'):
                 neg = A.strip_not(s.test)[1]
                 drop_arm = s.orelse if neg else s.body
-                okc = all(isinstance(x, ast.AugAssign) and isinstance(x.op, ast.Add) for x in drop_arm) and bool(drop_arm)
+                okc = all(incr(x) is not None and incr(x)[1] == 1 and incr(x)[0] != CN for x in drop_arm) and bool(drop_arm)
                 rep.ob('P2', K.key(cls, '__iter__', 'drop-arm-only-counts(%s)' % name), okc, s, '')
         # P6 counter
-        dec = [s for s in A.walk_stmts(block) if isinstance(s, ast.AugAssign) and isinstance(s.op, ast.Sub)
-               and A.is_name(s.target, 'buffered_count') and A.src(s.value) == 'len(data)']
+        dec = [s for s in A.walk_stmts(block) if incr(s) and incr(s)[0] == CN and incr(s)[1] == -1 and len_of_data(incr(s)[2])]
         okp6 = len(dec) == 1 and not [t for t, b in flow.guards_of(dec[0], fn) if any(t is x for s2 in block for x in ast.walk(s2))]
         rep.ob('P6', K.key(cls, '__iter__', 'withheld-counter-decremented-by-len(data)(%s)' % name), okp6, p,
                '' if okp6 else 'every removal must subtract len(data) from the withheld counter exactly once, unconditionally')
     want = {'completion', 'expiry', 'overflow'}
     rep.ob('P2', K.key(cls, '__iter__', 'removal-sites=completion+expiry+overflow'), set(site_names) == want, fn,
            '' if set(site_names) == want else 'removal sites found: %s' % site_names)
-    inc = [s for s in loop.body if isinstance(s, ast.AugAssign) and isinstance(s.op, ast.Add)
-           and A.is_name(s.target, 'buffered_count') and A.int_value(s.value) == 1]
+    inc = [s for s in loop.body if incr(s) and incr(s)[0] == CN and incr(s)[1] == 1 and A.int_value(incr(s)[2]) == 1]
     rep.ob('P6', K.key(cls, '__iter__', 'withheld-counter+1-per-element'), len(inc) == 1, loop, '')
     # overflow loop: while buffered_count > max_buffered_examples
     ov = [w for w in A.walk_stmts(loop.body) if isinstance(w, ast.While)]
@@ -221,7 +250,7 @@ def run(ctx):
     if len(ov) == 1:
         kind, ats = A.atoms(ov[0].test)
         ok = any(len(a) == 3 and a[2] is not None and (lambda r: r and r[0] == '>' and A.is_self_attr(r[1], 'max_buffered_examples'))(
-            A.norm_cmp(a[0], a[1], a[2], lambda e: A.is_name(e, 'buffered_count'))) for a in ats)
+            A.norm_cmp(a[0], a[1], a[2], lambda e: A.is_name(e, CN))) for a in ats)
     rep.ob('P6', K.key(cls, '__iter__', 'overflow-loop:while-withheld>max_buffered_examples'), ok, ov[0] if ov else loop,
            '' if ok else 'buckets must be released while the number of withheld examples exceeds max_buffered_examples')
     # ---------------- P3 final flush
@@ -232,7 +261,7 @@ def run(ctx):
         mode, val = emission_in(fl[0].body, None)
         tgt = fl[0].target
         bn = tgt.elts[0].id if isinstance(tgt, ast.Tuple) and isinstance(tgt.elts[0], ast.Name) else None
-        dd = [s for s in fl[0].body if isinstance(s, ast.Assign) and A.is_name(s.targets[0], 'data')]
+        dd = [s for s in fl[0].body if isinstance(s, ast.Assign) and is_data(s.targets[0])]
         ok = mode == 'unless-drop' and bool(dd) and A.src(dd[0].value) == '%s.data' % bn and \
             not any(isinstance(x, (ast.Break, ast.Continue, ast.Return)) for x in A.walk_stmts(fl[0].body))
     rep.ob('P3', K.key(cls, '__iter__', 'final-flush-emits-every-remaining-bucket-unless-drop'), ok, fl[0] if fl else fn,
@@ -245,15 +274,27 @@ def run(ctx):
            comp[0] if comp else loop,
            '' if ok else 'after placing an element, is_completed() of exactly that bucket must be tested unconditionally')
     # index of the touched bucket
-    jdefs = flow.assigned_names(fn).get('j', [])
+    comp_pops = [pp for pp in pops if any(isinstance(t, ast.Call) and isinstance(t.func, ast.Attribute)
+                                           and t.func.attr == 'is_completed' and b for t, b in flow.guards_of(pp, fn))]
+    jname = comp_pops[0].args[0].id if comp_pops and comp_pops[0].args and isinstance(comp_pops[0].args[0], ast.Name) else None
+    jdefs = flow.assigned_names(fn).get(jname, []) if jname else []
     okj = any(A.src(d) == 'len(%s) - 1' % B for d in jdefs)
+    # ... and the first-fit index comes from the enumerate over the open list
+    if okj and inner:
+        il0 = inner[0]
+        okj = isinstance(il0.iter, ast.Call) and A.dotted(il0.iter.func) == 'enumerate' and isinstance(il0.target, ast.Tuple) \
+            and A.is_name(il0.target.elts[0], jname)
     rep.ob('P5', K.key(cls, '__iter__', 'touched-index=len(list)-1-after-creation'), okj, loop,
            '' if okj else 'after creating a bucket the index used for its removal must be len(%s) - 1' % B)
     db = ctx.repo.cls('core.DynamicBucket')
     ic = db.own('is_completed').node
     rets = flow.returns_of(ic)
-    ok = len(rets) == 1 and isinstance(rets[0].value, ast.Compare) and A.src(rets[0].value.left) == 'len(self.data)' \
-        and isinstance(rets[0].value.ops[0], ast.GtE) and A.is_self_attr(rets[0].value.comparators[0], 'batch_size')
+    ok = False
+    if len(rets) == 1:
+        kind, ats = A.atoms(rets[0].value)
+        ok = len(ats) == 1 and len(ats[0]) == 3 and ats[0][2] is not None and (lambda r: r is not None and r[0] == '>='
+                                                                              and A.is_self_attr(r[1], 'batch_size'))(
+            A.norm_cmp(ats[0][0], ats[0][1], ats[0][2], lambda e: A.src(e) == 'len(self.data)'))
     rep.ob('P5', K.key(db, 'is_completed', 'complete-at-len(data)>=batch_size'), ok, ic,
            '' if ok else 'a bucket must be complete as soon as it holds batch_size examples (else batches exceed batch_size)')
     ma = db.own('maybe_append').node
@@ -283,8 +324,9 @@ def run(ctx):
     rep.ob('P5', K.key(db, '__init__', 'bucket-starts-with-exactly-the-creating-example'), ok, init, '')
     # emitted data are the bucket's data (possibly sorted), never filtered
     for y in A.yields_in(fn):
-        ok = A.is_name(y.value, 'data')
+        ok = is_data(y.value)
         rep.ob('P2', K.key(cls, '__iter__', 'yields-the-whole-bucket'), ok, y, '' if ok else 'a yield emits %s' % A.short(y.value))
-    srt = [n for n in A.walk_local(fn) if isinstance(n, ast.Assign) and A.is_name(n.targets[0], 'data') and 'sorted' in A.src(n.value)]
-    ok = all(isinstance(n.value, ast.Call) and A.dotted(n.value.func) == 'sorted' and A.is_name(n.value.args[0], 'data') for n in srt)
+    srt = [n for n in A.walk_local(fn) if isinstance(n, ast.Assign) and isinstance(n.value, ast.Call)
+           and A.dotted(n.value.func) == 'sorted']
+    ok = all(is_data(n.targets[0]) and n.value.args and A.is_name(n.value.args[0], n.targets[0].id) for n in srt)
     rep.ob('P2', K.key(cls, '__iter__', 'sorting-preserves-the-multiset'), ok, srt[0] if srt else fn, '')
